@@ -204,9 +204,12 @@ impl RtrStream {
         keepalive: Option<Duration>,
         server_metrics: &RtrServerMetrics,
     ) -> Result<Self, io::Error> {
+        #[cfg(feature = "verif-hooks")] crate::verif::point("rtr.setup");
+        #[cfg(feature = "verif-hooks")] if crate::verif::inject("rtr.setup-fails") { return Err(io::Error::other("injected setup failure")) }
         if let Some(duration) = keepalive {
             Self::set_keepalive(&sock, duration)?
         }
+        #[cfg(feature = "verif-hooks")] crate::verif::point("rtr.setup-ok");
         let metrics = server_metrics.get_client(addr.ip());
         metrics.update(|metrics| metrics.inc_current_connections());
         Ok(RtrStream {
